@@ -501,7 +501,9 @@ def check_mel_constants(out, facts, caps):
         ev = sym.Evaluator(facts)
         v, t = ev.ev(fl[0]['thir'], sym.Ctx(ev, fl[0]))
         v = strip(v)
-        val = v[1] if isinstance(v, tuple) and v[0] == 'lit' else None
+        val = eval_expr(v, lambda a: None) if t == ['eps'] else None       # the value of a constant expression, however spelled
+        if isinstance(val, bool):
+            val = None
         out.ob('R04.4', 'MaxEncodedLen of Compact<%s> [%s]' % (prim, cfg), val == need and (caps.get(prim) is None or caps[prim] >= need),
                'declared maximum %s, length table maximum %d, buffer %s' % (val, need, caps.get(prim)), fl[0]['loc'])
 
